@@ -193,6 +193,14 @@ func init() {
 				Implies(And(Le(zero, x), Lt(x, M)), Eq(Mod(x, M), x)),
 				Implies(And(Le(M, x), Lt(x, MulC(big2, M))), Eq(Mod(x, M), Sub(x, M)))))
 		}, "0 < M: a in [0,M) => a mod M = a;  a in [M,2M) => a mod M = a - M")
+	addLean("mod_add_multiple", "mod_add_multiple", []string{"a", "b", "M"},
+		func(a []*Term) *Term {
+			return Implies(Eq(Mod(a[1], a[2]), zero), Eq(Mod(Add(a[0], a[1]), a[2]), Mod(a[0], a[2])))
+		}, "b mod M = 0 => (a + b) mod M = a mod M")
+	addLean("mod_shift", "mod_shift", []string{"a", "k", "M"},
+		func(a []*Term) *Term {
+			return Eq(Mod(Add(a[0], Mul(a[1], a[2])), a[2]), Mod(a[0], a[2]))
+		}, "(a + k*M) mod M = a mod M")
 	// one iteration of the bit-by-bit discrete logarithm of SolveDiscreteLogGaloisElement
 	// (Lean: dlog_step_cases with m = n-3): N = 2^n, E = 2^(n-3), g ≡ 5^k (mod N), k < 2^(n-2),
 	// x | E, c = E/x, ku = (k mod c)*x, r1 ≡ 5^ku, r2 ≡ g^x, both reduced
